@@ -432,7 +432,7 @@ impl Prop for C09 {
         }
     }
     fn rule(&self) -> String {
-        "cases are encodings. [rle16] every sequence of <=3 interleaved-RLE orders (<=4 for shapes up to 4 pixels in thorough) over {all 12 order kinds} x {short, extended, mega-mega forms} x {every run length that fits} x palette {0,0xFFFF,0x1234} that the reference decoder maps onto a complete image of the shape (shapes up to 6 px; larger shapes with <=2 orders to reach extended forms / special orders); [planar32] every plane vector over {0,1,7F,80,FF} for shapes up to 2x2/4x1 x every segmentation of every scan line (one line varied at a time, plus all together), and wide lines (widths 16..141 around the 16/32/47-pixel run escapes and their multiples; constant, flat-zero, opaque-black and patterned images x 8 segmentation strategies) for the long-run escapes; [rle16-encoded] 14 structured image patterns x 8 sizes up to 64x64 x 10 deterministic strategies of a greedy reference encoder (order kinds allowed, preferred spelling, run-length cap); large images whose pixel count passes 2^15 / 2^16 or whose side is 65535, in all four formats; [raw16]/[raw32] bottom-up uncompressed layouts; [widen565] all 65536 colours. Non-trivial: >=2 orders or a non-default segmentation or >=2 rows.".into()
+        "cases are encodings. [rle16] every sequence of <=3 interleaved-RLE orders (<=4 for shapes up to 4 pixels in thorough) over {all 12 order kinds} x {short, extended, mega-mega forms} x {every run length that fits} x palette {0,0xFFFF,0x1234} that the reference decoder maps onto a complete image of the shape (shapes up to 6 px; larger shapes with <=2 orders to reach extended forms / special orders); [planar32] every plane vector over {0,1,7F,80,FF} for shapes up to 2x2/4x1 x every segmentation of every scan line (one line varied at a time, plus all together), and wide lines (widths 16..141 around the 16/32/47-pixel run escapes and their multiples; constant, flat-zero, opaque-black and patterned images x 8 segmentation strategies) for the long-run escapes; [rle16-encoded] 14 structured image patterns x 8 sizes up to 64x64 x 10 deterministic strategies of a greedy reference encoder (order kinds allowed, preferred spelling, run-length cap); large images whose pixel count passes 2^15 / 2^16 or whose side is 65535, in all four formats; [raw16]/[raw32] bottom-up uncompressed layouts; [widen565] all 65536 colours. Non-trivial: >=2 orders or a non-default segmentation or >=2 rows. Every case is decoded under its full destination rectangle and again under 2..6 other rectangles (a single cell, narrower than the buffer, inverted, 65535-wide, one row): the pixels must not depend on the rectangle.".into()
     }
     fn assumptions(&self) -> Vec<String> {
         vec![
@@ -500,7 +500,25 @@ impl Prop for C09 {
             }
             Case::Skip => panic!("VERIF: case of another shard executed"),
         };
-        let ev = BitmapEvent { dest_left: 0, dest_top: 0, dest_right: w - 1, dest_bottom: h - 1, width: w, height: h, bpp, is_compress: compress, data };
+        // the decoded image is width x height whatever the destination rectangle says (it may be narrower than the
+        // buffer, MS-RDPBCGR 2.2.9.1.1.3.1.2.2): the same data under several rectangles must decode to the same pixels
+        let mut rects: Vec<(u16, u16, u16, u16)> = vec![(0, 0, w.wrapping_sub(1), h.wrapping_sub(1))];
+        if (w as usize) * (h as usize) <= 4096 {
+            rects.extend([(0, 0, 0, 0), (5, 7, 5 + (w / 2).saturating_sub(1), 7 + h.saturating_sub(1)), (w, h, 0, 0), (0, 0, 65535, 65535), (3, 0, 3 + w.saturating_sub(2), 0)]);
+        } else {
+            rects.push((1, 1, w / 2, h / 2));
+        }
+        for (ri, (dl, dt, dr, db)) in rects.iter().enumerate().skip(1) {
+            let ev = BitmapEvent { dest_left: *dl, dest_top: *dt, dest_right: *dr, dest_bottom: *db, width: w, height: h, bpp, is_compress: compress, data: data.clone() };
+            match ev.decompress() {
+                Ok(v) if v == want => {}
+                other => {
+                    let short = kind.split('-').next().unwrap_or("").to_string();
+                    return Outcome::fail("mismatch", format!("{}-depends-on-the-destination-rectangle", short), format!("{}: {}x{} with destination rectangle #{} ({},{})-({},{}): {}", kind, w, h, ri, dl, dt, dr, db, match other { Ok(v) => format!("{} bytes, differing from the reference", v.len()), Err(e) => format!("{:?}", e) }));
+                }
+            }
+        }
+        let ev = BitmapEvent { dest_left: 0, dest_top: 0, dest_right: w.wrapping_sub(1), dest_bottom: h.wrapping_sub(1), width: w, height: h, bpp, is_compress: compress, data };
         match ev.decompress() {
             Err(e) => Outcome::fail("error", format!("conformant-encoding-rejected-{}", kind.split('-').next().unwrap_or("")), format!("decompress returned {:?} for a conformant {} encoding", e, kind)),
             Ok(v) => {
